@@ -12,6 +12,12 @@ CONFIG = {
             "and then 2-4 concurrent Kill calls racing with in-flight operations, over netrpc, grpc and grpc+mux; concurrent Accept/Dial/NextId with distinct ids in both "
             "directions on one MuxBroker pair (some unmatched, Close in flight) and on one in-process GRPCBroker pair with and without multiplexing (then concurrent "
             "GRPCClient.Close); 64 goroutines x 1000 NextId calls per broker type; verifhook delay points (host and plugin side) seeded from VERIF_SEED; "
+            "C20.close rows (scenario C20close of the -race binary, a process of its own so that a panic in a library goroutine is that scenario's RESULT, "
+            "FAIL:panic:<message>:<frame>, not the end of the run): on a fresh real in-process GRPCClient/GRPCServer pair per round, 6 goroutines per broker on BOTH brokers "
+            "(host streamer gRPCBrokerClientImpl, plugin streamer gRPCBrokerServer) call Accept(NextId()) in a loop (every Accept advertises its listener through streamer.Send) "
+            "and after a seeded 0.2-2.7 ms four goroutines Close both brokers, so that Close lands while Sends are in flight (the note reports how many were); quick: 120 rounds "
+            "without multiplexing for the first seed; thorough: 500 rounds per seed plus 3 multiplexed rounds (Accept+Dial pairs: knock / knock-ack Sends) for the first; "
+            "the model row is the reply-channel protocol run at the extracted facts; "
             "every data-race report whose access stacks contain go-plugin frames (outside test/ and examples/) is one !C20.race row with signature "
             "race:<Type>.<field>:<M1>/<M2>; evaluations = result rows; non-trivial = a row that is not a plain success",
     "assumptions": [
@@ -25,6 +31,9 @@ CONFIG = {
         "doneCtx/ctxCancel are assigned once per client because Start launches at most once (launchAttempted, the D10 fix); the rules rely on that",
         "close sites outside sync.Once are justified by the API's one-Accept/one-Dial-per-id rule (`singleClosers`), i.e. by the 'distinct IDs' clause of the property",
         "NextId distinctness is stated for fewer than 2^32 calls (uint32 wrap-around is modelled; `wraparound_duplicates` shows the bound is needed)",
+        "reply-channel protocol (Model/ReplyChan.lean): one stream goroutine per streamer (StartStream runs once per broker), stream.Send returns (its result is irrelevant), "
+        "the stream's context ending is treated like quit closing (StartStream defers s.Close()); the facts are per streamer type and syntactic: the reply channel is the local "
+        "make(chan) of Send that travels in the literal sent on s.send; any other use of it makes the fact false",
         "race-detector runs are model validation and failing-schedule search only: they see the schedules that happened",
     ],
     "timeout": {"quick": 900, "thorough": 3600},
@@ -37,7 +46,11 @@ CONFIG = {
                   "every run and Instance/C20.lean re-checks by kernel evaluation over the WHOLE table that every conflicting pair is ordered by a common mutex, atomics, "
                   "the constructor phase or an explicit documented publication rule (table_ok_partial), that the core shared fields are purely lock-protected "
                   "(core_fields_lock_protected -> holds_lockset_race_free for any program made of the table's critical sections), that NextId is atomic and every close "
-                  "site is Once-/nil-guarded or a documented single closer. PARTIAL: table_ok_partial excludes two genuine races, reproduced by the race detector on "
+                  "site is Once-/nil-guarded or a documented single closer. Channels the table does not see - the per-call reply channel of the broker streamers' Send, "
+                  "shared with the stream goroutine and closed by a deferred close - are covered by a protocol model (Model/ReplyChan.lean: any number of Sends, the stream goroutine, Close; "
+                  "every interleaving): no_send_on_closed_channel, reply_always_deliverable, reply_channel_closed_once (every tree), with witnesses early_return_send_on_closed_channel "
+                  "(Send giving up on quit while keeping defer close(ch)) and double_reply_send_on_closed_channel; facts sendWaitsForReply / sendClosesReply / workerRepliesOnce "
+                  "extracted for both streamer types (facts_good_reply_channel). PARTIAL: table_ok_partial excludes two genuine races, reproduced by the race detector on "
                   "every run and listed as known findings (GRPCServer.broker in Stop/Stop; Client.negotiatedVersion in NegotiatedVersion/Start).",
     "level_note": "Partial: the theorem is about the extracted table; accesses the extractor does not see (through interfaces, in dependencies) are not covered, and the "
                   "publication rules are happens-before arguments encoded as checked data, not derived in the model. Race-detector runs (real plugin subprocesses built "
